@@ -216,3 +216,14 @@ def step_fn(profile: Profile, state: StateRef) -> Profile:
 def replay(p: Profile, states: Seq(StateRef), n: Int) -> Profile:
     """the initial profile pushed through the first n recorded rounds"""
     return p if n <= 0 else step_fn(replay(p, states, n - 1), states[n - 1])
+
+
+@lemma(induct="n")
+def distinct_at(cs: Seq(Str), i: Int, j: Int, n: Int) -> Bool:
+    """pairwise different names differ at any two different positions"""
+    return implies(distinct(cs, n) and 0 <= i and i < j and j < n and n <= len(cs), cs[i] != cs[j])
+
+
+@lemma
+def nth_in(cs: Seq(Str), k: Int) -> Bool:
+    return implies(0 <= k and k < len(cs), cs[k] in cs)
